@@ -29,6 +29,7 @@ struct Th {
     const void* last_read = nullptr; uint64_t last_read_ver = 0; int read_streak = 0;
     int prio = 0;                   // PCT
     int pending_kind = 0;
+    long picks = 0;                 // how often the scheduler chose this thread
 };
 
 struct Shadow { int wtid = -1; uint32_t wclk = 0; uint32_t rclk[MAXT]; Shadow() { std::memset(rclk, 0, sizeof(rclk)); } };
@@ -104,10 +105,21 @@ int choose(Sched& s, bool exclude_cur_blocked) {
         if (s.rng() % 16 == 0) pick = en[s.rng() % en.size()];
         break;
     }
+    case STICKY: {        // no preemption: the running thread keeps the processor until it blocks or ends (rarely: a random switch);
+                          // a thread that was just woken or handed work therefore starts late, after its waker has gone on for a long time
+        // a freshly spawned thread runs first until it blocks (pool workers reach their idle wait), after that nobody is preempted
+        for (int id : en) if (pick < 0 && s.th[id].picks == 0 && id != s.cur) pick = id;
+        if (pick < 0) {
+            if (s.cur >= 0 && ::std::find(en.begin(), en.end(), s.cur) != en.end() && s.rng() % 64 != 0) pick = s.cur;
+            else pick = en[s.rng() % en.size()];
+        }
+        break;
+    }
     default:
         pick = en[s.rng() % en.size()];
     }
     s.res.schedule.push_back(pick);
+    s.th[pick].picks++;
     return pick;
 }
 
